@@ -231,7 +231,7 @@ theorem and_uge_ne_sound : Sound R.and_uge_ne := by
     congr 1
     simp only [BitVec.ult, BitVec.ule]
     rw [Bool.eq_iff_iff]
-    simp only [Bool.and_eq_true, decide_eq_true_eq, Bool.not_eq_true', beq_eq_false_iff_ne, ne_eq]
+    simp only [Bool.and_eq_true, decide_eq_true_eq, Bool.not_eq_true', beq_eq_false_iff_ne, ne_eq, Bool.true_and]
     constructor
     · intro h
       refine ⟨by omega, ?_⟩
